@@ -255,36 +255,98 @@ func c18(c *Ctx) {
 	}
 
 	// ---- restart-gate in processGC
-	ngate := 0
-	eachInstr(gc, func(i ssa.Instruction) {
-		mu, ok := i.(*ssa.MapUpdate)
-		if !ok {
-			return
+	// the maps of the scan are identified by role, not by name: the restart set is the map ranged
+	// over by the loop that resets nodes; the readiness table is the map that receives a computed
+	// (non-constant) boolean
+	var canMap, readyMap ssa.Value
+	for _, s := range callsTo(p, reset) {
+		if s.Fn == gc {
+			if m := c18rangedMap(s.Instr.(ssa.CallInstruction).Common().Args[0], 0); m != nil {
+				canMap = m
+			}
 		}
-		mt := facts.Term(mu.Map)
-		switch {
-		case mt == "map:can":
-			ngate++
-			fs := facts.Atoms(facts.At(mu, nil))
-			want, ready := false, false
-			for _, a := range fs {
-				if strings.HasPrefix(a, "map:want[(*N/supervisor.node).dn(") {
-					want = true
+	}
+	eachInstr(gc, func(i ssa.Instruction) {
+		if mu, ok := i.(*ssa.MapUpdate); ok {
+			if _, isConst := mu.Value.(*ssa.Const); !isConst && isBoolType(mu.Value.Type()) {
+				readyMap = mu.Map
+			}
+		}
+	})
+	readyPfx := "\x00"
+	if readyMap != nil {
+		readyPfx = facts.Term(readyMap) + "[(*N/supervisor.node).dn("
+	}
+	isRestartState := func(a string) bool {
+		for _, st := range []string{DEAD, CANCELED} {
+			if strings.HasPrefix(a, st+" == ") && strings.HasSuffix(a, ".state") || strings.HasSuffix(a, ".state == "+st) {
+				return true
+			}
+		}
+		return false
+	}
+	isLive := func(a string) bool {
+		return strings.HasSuffix(a, ".parent == nil") || strings.HasPrefix(a, "invoke:context.Context.Err(") && strings.HasSuffix(a, ".parent.ctx) == nil")
+	}
+	// a must-hold fact all of whose ways to be true contain an atom of the given kind
+	everyWay := func(fs []facts.Fact, kind func(string) bool) bool {
+		for _, f := range fs {
+			djs := facts.DNF(f.Cond, f.Pol)
+			if len(djs) == 0 {
+				continue
+			}
+			all := true
+			for _, conj := range djs {
+				has := false
+				for _, x := range conj {
+					if kind(x.Atom) {
+						has = true
+					}
 				}
-				if strings.HasPrefix(a, "map:ready[(*N/supervisor.node).dn(") {
-					ready = true
+				if !has {
+					all = false
 				}
 			}
-			es, ds := edgesWhere(gc, func(a string) bool {
-				return strings.HasSuffix(a, ".parent == nil") || strings.HasPrefix(a, "invoke:context.Context.Err(") && strings.HasSuffix(a, ".parent.ctx) == nil")
-			})
-			live := len(es) >= 2 && facts.PassesAny(mu.Block(), nil, es...)
-			R.Check("C18.restart-gate", R.Key("C18.restart-gate", shortFn(gc), "mapupdate:can"), c.rel(p.Pos(mu.Pos())), "a node enters the restart set only if it is wanted, its whole subtree is ready, and it has no parent or the parent's context is live", want && ready && live, fmt.Sprintf("want=%v ready=%v parent-live edges=%v facts=%v", want, ready, ds, fs))
+			if all {
+				return true
+			}
 		}
+		return false
+	}
+	ngate := 0
+	wantMaps := map[string]bool{}
+	eachInstr(gc, func(i ssa.Instruction) {
+		mu, ok := i.(*ssa.MapUpdate)
+		if !ok || canMap == nil || mu.Map != canMap {
+			return
+		}
+		ngate++
+		ffs := facts.At(mu, nil)
+		fs := facts.Atoms(ffs)
+		want, ready := false, false
+		for _, a := range fs {
+			// wanted: membership in a set that only takes DEAD/CANCELED nodes (checked below) …
+			if strings.HasPrefix(a, "map:") && strings.Contains(a, "[(*N/supervisor.node).dn(") && !strings.HasPrefix(a, readyPfx) {
+				wantMaps[strings.TrimPrefix(a[:strings.Index(a, "[")], "map:")] = true
+				want = true
+			}
+			if strings.HasPrefix(a, readyPfx) {
+				ready = true
+			}
+		}
+		// … or the state test itself on the way to the insertion
+		if !want && everyWay(ffs, isRestartState) {
+			want = true
+		}
+		es, ds := edgesWhere(gc, isLive)
+		live := len(es) >= 2 && facts.PassesAny(mu.Block(), nil, es...) || everyWay(ffs, isLive)
+		R.Check("C18.restart-gate", R.Key("C18.restart-gate", shortFn(gc), "mapupdate:can"), c.rel(p.Pos(mu.Pos())), "a node enters the restart set only if it is wanted, its whole subtree is ready, and it has no parent or the parent's context is live", want && ready && live, fmt.Sprintf("want=%v ready=%v parent-live edges=%v facts=%v", want, ready, ds, fs))
 	})
 	R.Floor("C18.restart-gate", ngate, 1)
 	// want only for DEAD/CANCELED; ready only for DONE/CANCELED/DEAD: check via the If conditions that dominate the constant stores
-	c18mapGate(c, gc, "want", []string{DEAD, CANCELED})
+	for w := range wantMaps {
+		c18mapGate(c, gc, w, []string{DEAD, CANCELED})
+	}
 	// states that a node can take while its runnable is still executing (set by the runnable's own
 	// Signal call rather than by processDied after the goroutine returned)
 	early := map[string]bool{}
@@ -295,7 +357,7 @@ func c18(c *Ctx) {
 		}
 		early[facts.Term(st.Val)] = true
 	}
-	c18ready(c, gc, []string{DONE, CANCELED, DEAD}, early)
+	c18ready(c, gc, readyMap, []string{DONE, CANCELED, DEAD}, early)
 	// reset() is called only on nodes of `can`
 	for _, s := range callsTo(p, reset) {
 		if s.Fn == gc {
@@ -557,13 +619,17 @@ func reachesCall(instr ssa.Instruction, fn *ssa.Function) bool {
 // The value stored is expanded into the disjunction of control paths that make it true; every
 // disjunct must (a) carry a state fact of the accepted set and (b) leave a loop over n.children by
 // exhaustion, where every completed iteration of that loop has the fact ready[child.dn()].
-func c18ready(c *Ctx, fn *ssa.Function, states []string, early map[string]bool) {
+func c18ready(c *Ctx, fn *ssa.Function, readyMap ssa.Value, states []string, early map[string]bool) {
+	readyPfx := "\x00"
+	if readyMap != nil {
+		readyPfx = facts.Term(readyMap) + "[(*N/supervisor.node).dn("
+	}
 	p, R := c.Node(), c.R
 	loops := facts.LoopsOf(fn)
 	n := 0
 	eachInstr(fn, func(i ssa.Instruction) {
 		mu, ok := i.(*ssa.MapUpdate)
-		if !ok || facts.Term(mu.Map) != "map:ready" {
+		if !ok || readyMap == nil || mu.Map != readyMap {
 			return
 		}
 		n++
@@ -607,7 +673,7 @@ func c18ready(c *Ctx, fn *ssa.Function, states []string, early map[string]bool) 
 					}
 					iter := facts.Atoms(l.IterationFacts(nil))
 					for _, a := range iter {
-						if strings.HasPrefix(a, "map:ready[(*N/supervisor.node).dn(") && strings.Contains(a, ".children") {
+						if strings.HasPrefix(a, readyPfx) && strings.Contains(a, ".children") {
 							okKids = true
 						}
 					}
@@ -777,4 +843,33 @@ func c18dirtyBeforeNextSelect(from ssa.Instruction) bool {
 		return true
 	}
 	return walk(b, idx+1)
+}
+
+// c18rangedMap: the map whose range statement produces v (through next/extract/calls), or nil.
+func c18rangedMap(v ssa.Value, depth int) ssa.Value {
+	if depth > 6 || v == nil {
+		return nil
+	}
+	switch x := v.(type) {
+	case *ssa.Range:
+		if _, ok := x.X.Type().Underlying().(*types.Map); ok {
+			return x.X
+		}
+	case *ssa.Next:
+		return c18rangedMap(x.Iter, depth+1)
+	case *ssa.Extract:
+		return c18rangedMap(x.Tuple, depth+1)
+	case *ssa.Call:
+		for _, a := range x.Call.Args {
+			if m := c18rangedMap(a, depth+1); m != nil {
+				return m
+			}
+		}
+	}
+	return nil
+}
+
+func isBoolType(t types.Type) bool {
+	b, ok := t.Underlying().(*types.Basic)
+	return ok && b.Info()&types.IsBoolean != 0
 }
